@@ -56,7 +56,7 @@ Record job := mkJob {
 Record gst := mkG {
   workers : nat; free : nat;
   timed : bool;            (* evaluator.timeout is not None *)
-  expired : bool;          (* time_left <= 0 *)
+  expired : bool;          (* the budget set last has run out (time_left <= 0 while it is set) *)
   calltimed : bool;        (* the running search() call was given timeout=: it resets the budget after close *)
   stopped : bool;          (* Search.stopped set by the time test *)
   phase : lphase;
@@ -151,8 +151,9 @@ Definition gstep (c : cfg) (g : gst) (e : ev) : option gst :=
       match phase g with
       | PClosing =>
           if all_settled g
-          then Some (set_flags g (timed g && negb (calltimed g)) (expired g && negb (calltimed g)) (calltimed g) (stopped g) PClosed)
-               (* a search(timeout=) call ends with evaluator.timeout = None *)
+          then Some (set_flags g (timed g && negb (calltimed g)) (expired g) (calltimed g) (stopped g) PClosed)
+               (* a search(timeout=) call ends with evaluator.timeout = None; [expired] keeps telling whether the budget of the
+                  last call ran out, until the next budget is set *)
           else None
       | _ => None
       end
@@ -264,7 +265,7 @@ Definition gstep (c : cfg) (g : gst) (e : ev) : option gst :=
       end
   | EExpire => if timed g && negb (expired g) then Some (set_flags g (timed g) true (calltimed g) (stopped g) (phase g)) else None
   | ESentinel => Some g
-  | ESentinel0 => if budget_out g then None else Some g
+  | ESentinel0 => if expired g then None else Some g   (* the budget set last has not run out yet *)
   end.
 
 (* what the harness observes of an event (status writes, run-function start / poll / return, the sentinels) *)
